@@ -35,6 +35,9 @@ type Case struct {
 	Fracs []Frac            `json:"fracs"`
 	Lists []List            `json:"lists"`
 	Opts  harness.StoreOpts `json:"opts"`
+	// Split: every fraction arrives in two bulks with a search of everything in between (a search on
+	// the active fraction merges the posting lists collected so far)
+	Split bool `json:"split,omitempty"`
 }
 
 func body(t *rapid.T, n int) []byte {
@@ -82,6 +85,7 @@ func genCase(t *rapid.T) Case {
 	// small sorted-docs blocks: every sealed fraction then has many doc blocks at different offsets
 	c.Opts.DocBlockSize = rapid.SampledFrom([]int{0, 128, 700, 5000}).Draw(t, "docblock")
 	c.Opts.SkipSortDocs = rapid.IntRange(0, 3).Draw(t, "skipsort") == 3
+	c.Split = rapid.IntRange(0, 3).Draw(t, "split") == 3
 	nl := rapid.IntRange(1, 4).Draw(t, "nlists")
 	for l := 0; l < nl; l++ {
 		c.Lists = append(c.Lists, genList(t, c.Fracs, all))
@@ -206,7 +210,20 @@ func runCase(c Case) (evid.Result, error) {
 	defer st.Close()
 	var corpus model.Corpus
 	for _, f := range c.Fracs {
-		if err := st.Bulk(f.Docs); err != nil {
+		if c.Split && len(f.Docs) >= 2 {
+			k := len(f.Docs) / 2
+			if err := st.Bulk(f.Docs[:k]); err != nil {
+				return res, evid.Failf("bulk-error", "%v", err)
+			}
+			st.WaitIdle()
+			if _, err := st.Search(&model.SearchReq{Q: model.All(), From: 0, To: 1 << 62, Limit: 10}, "*", nil); err != nil {
+				return res, evid.Failf("search-error", "search of everything between two bulks: %v", err)
+			}
+			if err := st.Bulk(f.Docs[k:]); err != nil {
+				return res, evid.Failf("bulk-error", "%v", err)
+			}
+			res.Labels = append(res.Labels, "two-bulks-with-a-search-in-between")
+		} else if err := st.Bulk(f.Docs); err != nil {
 			return res, evid.Failf("bulk-error", "%v", err)
 		}
 		st.WaitIdle()
